@@ -319,6 +319,7 @@ pub fn scale_families() -> Vec<(&'static str, Box<dyn Fn(usize) -> Vec<u8>>)> {
 }
 
 const SCALE_CAP_SECS: u64 = 10;
+const HUGE_TRIP_CAP_MS: u64 = 4000;
 const SCALE_MEM_BYTES: u64 = 6 << 30;
 
 /// One scaling family: sizes n = 1,2,..,8,12,18,.. up to `max_n`, in this process order. A create
@@ -417,6 +418,61 @@ fn scale_family(ctx: &mut WorkerCtx, fam: &str, gen: &dyn Fn(usize) -> Vec<u8>, 
     }
 }
 
+/// Huge constant trip counts (family H): a chunk of programs is built in one isolated child at 32 and 64
+/// bit, levels 1..3, all compiling executors; a chunk that does not finish inside the cap is re-run one
+/// program at a time to name the program. Stops after the first failure in a worker.
+fn huge_trip_chunk(ctx: &mut WorkerCtx, progs: &[Vec<u8>], failures: &mut u32) {
+    let build = |list: Vec<Vec<u8>>| {
+        isolated(HUGE_TRIP_CAP_MS, move || {
+            unsafe {
+                let lim = libc::rlimit { rlim_cur: SCALE_MEM_BYTES, rlim_max: SCALE_MEM_BYTES };
+                libc::setrlimit(libc::RLIMIT_AS, &lim);
+            }
+            for code in &list {
+                let text = std::str::from_utf8(code).unwrap();
+                for w in [Width::W32, Width::W64] {
+                    for level in 1..=3u32 {
+                        for b in [Backend::IrInt, Backend::BcInt, Backend::BaseJit] {
+                            if let Err(e) = compile(b, w, level, text) {
+                                let mut v = vec![0xffu8];
+                                v.extend_from_slice(format!("{}\t{}\t{level}\t{text}\t{e:?}", b.name(), w.bits()).as_bytes());
+                                return v;
+                            }
+                        }
+                    }
+                }
+            }
+            vec![0]
+        })
+    };
+    ctx.count("evaluations", progs.len() as u64 * 18);
+    ctx.count("huge_trip_programs", progs.len() as u64);
+    for c in progs {
+        ctx.distinct(fnv(c) ^ 0x4855_4745);
+    }
+    if let Iso::Done(v) = build(progs.to_vec()) {
+        if v == [0] {
+            return;
+        }
+    }
+    for code in progs {
+        if *failures >= 1 {
+            return;
+        }
+        let r = build(vec![code.clone()]);
+        let (class, detail) = match r {
+            Iso::Done(v) if v == [0] => continue,
+            Iso::Done(v) => ("panic", String::from_utf8_lossy(&v[1.min(v.len())..]).to_string()),
+            Iso::Timeout => ("time-blowup", format!("building the executors at 32 and 64 bit, levels 1..3, did not finish within {} s for a source of {} characters (a chunk of 16 such programs takes milliseconds)", HUGE_TRIP_CAP_MS / 1000, code.len())),
+            Iso::Signal(s) if s == libc::SIGABRT => ("memory-blowup", format!("create needed more than {} GiB", SCALE_MEM_BYTES >> 30)),
+            Iso::Signal(s) => ("crash", format!("signal {s}")),
+            Iso::Exit(e) => ("crash", format!("exit {e}")),
+        };
+        *failures += 1;
+        fail(ctx, "huge-trip", class, Width::W64, 3, code, detail);
+    }
+}
+
 // ---------------------------------------------------------------------------------------- workers
 
 pub fn worker(ctx: &mut WorkerCtx) {
@@ -478,6 +534,16 @@ pub fn worker(ctx: &mut WorkerCtx) {
                 ctx.sample(|| J::obj().set("part", "scale").set("family", *name).set("n_max", p.scale_max).set("program_n2", String::from_utf8_lossy(&gen(2)).to_string()));
             }
         }
+        // huge constant trip counts, in chunks of 16 programs
+        let h = spaces::space_h();
+        let mut failures = 0u32;
+        for (k, chunk) in h.chunks(16).enumerate() {
+            let idx = (fams.len() + k) as u64;
+            if ctx.owns(idx) && failures < 1 {
+                ctx.mark(idx, 3, &chunk[0]);
+                huge_trip_chunk(ctx, chunk, &mut failures);
+            }
+        }
     }
 }
 
@@ -497,6 +563,9 @@ pub fn replay_case(j: &J) -> (bool, String) {
                 scale_family(&mut ctx, name, gen.as_ref(), n);
             }
         }
+    } else if what == "huge-trip" {
+        let mut failures = 0;
+        huge_trip_chunk(&mut ctx, &[code.clone()], &mut failures);
     } else if what.starts_with("reuse-") {
         reuse_program(&mut ctx, &code, &None);
     } else if what == "cross-process" {
@@ -543,7 +612,9 @@ pub fn info(tier: Tier) -> CheckInfo {
              execute_limited(0), print_mc x3, execute_limited(300), execute on fresh contexts; log, finished flag, remaining budget and \
              machine code must equal those of fresh executors that did nothing else (differential oracle, no expected values). Scaling: {} families (nested counted loops, chained \
              copy / add / double / product idioms, polynomial towers, nested moves) for n up to {}: every create finishes within {} s in \
-             an isolated process with a 6 GiB address-space limit and the bytecode size grows no faster than n^4 between consecutive sizes. evaluations = create calls / digests / \
+             an isolated process with a 6 GiB address-space limit and the bytecode size grows no faster than n^4 between consecutive sizes. Huge constant trip counts (family H: counter -1, every \
+             body of <= 3 additive statements over two cells, 2 prefixes, 2 loop shapes): chunks of 16 programs are built at 32 and 64 bit, \
+             levels 1..3, three executors, in an isolated process with a 4 s cap (they are never run). evaluations = create calls / digests / \
              executions; distinct = distinct programs with a loop.",
             p.a_len, p.b_tokens, p.s_k, p.nest_max, p.widths.iter().map(|w| w.bits()).collect::<Vec<_>>(), p.det_a_len, scale_families().len(), p.scale_max, SCALE_CAP_SECS
         ),
